@@ -507,6 +507,8 @@ func (c *Ctx) plainCodecRules(r *Report, prefix string) {
 	// stale octets into the message that is encoded)
 	c.akaValueIdentityRule(r, prefix)
 	c.elementFreshRule(r, prefix+"decode.element-fresh")
+	c.counterNoWrapRule(r, prefix+"codec.counter-no-wrap")
+	c.guardedNarrowingRule(r, prefix+"encode.guarded-narrowing")
 	c.encodeOwnHeaderRule(r, prefix+"encode-own-header")
 	// encoding is a function of the message's value: nothing is written through message-owned slices (a transform
 	// list grown in place shows up in every other proposal cut from the same backing array)
